@@ -20,25 +20,34 @@ def pandasTS (o : ColOracle) (b : Built Ty) : TS Ty Column :=
 
 theorem rank_le (t : Ty) : rank t ≤ 8 := by cases t <;> decide
 
+/-! projections of `purifyRel (mkRel o e)` -/
+theorem mkRel_dst (o : ColOracle) (e : Edge Ty) : (purifyRel (mkRel o e)).dst = e.dst := by
+  by_cases h : e.inferential = true <;> simp [mkRel, h, purifyRel]
+theorem mkRel_src (o : ColOracle) (e : Edge Ty) : (purifyRel (mkRel o e)).src = e.src := by
+  by_cases h : e.inferential = true <;> simp [mkRel, h, purifyRel]
+theorem mkRel_inf (o : ColOracle) (e : Edge Ty) : (purifyRel (mkRel o e)).inferential = e.inferential := by
+  by_cases h : e.inferential = true <;> simp [mkRel, h, purifyRel]
+theorem mkRel_id_guard (o : ColOracle) (e : Edge Ty) (h : e.inferential = false) (c : Column) :
+    (purifyRel (mkRel o e)).guard c = containsB e.dst c := by
+  simp [mkRel, h, purifyRel, contains, Except.map]
+theorem mkRel_id_xform (o : ColOracle) (e : Edge Ty) (h : e.inferential = false) (c : Column) :
+    (purifyRel (mkRel o e)).xform c = c := by
+  simp [mkRel, h, purifyRel]
+
 theorem mem_pandasTS_succ {o : ColOracle} {b : Built Ty} {n : Ty} {r : PRel Ty Column}
     (hr : r ∈ (pandasTS o b).succ n) :
-    ∃ e ∈ b.edges, e.src = n ∧ r.src = e.src ∧ r.dst = e.dst ∧ r.inferential = e.inferential ∧
+    ∃ e ∈ b.edges, e.src = n ∧ r = purifyRel (mkRel o e) ∧ r.src = e.src ∧ r.dst = e.dst ∧ r.inferential = e.inferential ∧
       (e.inferential = false → (∀ c, r.guard c = containsB e.dst c) ∧ (∀ c, r.xform c = c)) := by
   simp only [pandasTS, purify, graphOf, List.mem_map] at hr
   obtain ⟨r0, ⟨e, he, rfl⟩, rfl⟩ := hr
   have hm := List.mem_filter.mp he
-  refine ⟨e, hm.1, by simpa using hm.2, ?_⟩
-  by_cases hi : e.inferential = true
-  · simp only [hi, if_true, purifyRel]
-    simp
-  · have hi' : e.inferential = false := by simpa using hi
-    simp only [hi', Bool.false_eq_true, if_false, purifyRel]
-    simp [contains, Except.map]
+  exact ⟨e, hm.1, by simpa using hm.2, rfl, mkRel_src o e, mkRel_dst o e, mkRel_inf o e,
+    fun h => ⟨mkRel_id_guard o e h, mkRel_id_xform o e h⟩⟩
 
 /-- L0 holds by construction -/
 theorem pandasTS_L0 (o : ColOracle) (b : Built Ty) : (pandasTS o b).L0 := by
   intro n r hr hi
-  obtain ⟨e, _, _, _, hdst, hinf, hid⟩ := mem_pandasTS_succ hr
+  obtain ⟨e, _, _, _, _, hdst, hinf, hid⟩ := mem_pandasTS_succ hr
   have := hid (by rw [← hinf]; exact hi)
   simp only [pandasTS]
   rw [hdst]; exact this
@@ -47,7 +56,7 @@ theorem pandasTS_L0 (o : ColOracle) (b : Built Ty) : (pandasTS o b).L0 := by
 theorem pandasTS_height (o : ColOracle) (b : Built Ty) (hrank : ∀ e ∈ b.edges, rank e.src < rank e.dst) :
     ∀ n r, r ∈ (pandasTS o b).succ n → (pandasTS o b).h r.dst < (pandasTS o b).h n := by
   intro n r hr
-  obtain ⟨e, he, hsrc, _, hdst, _, _⟩ := mem_pandasTS_succ hr
+  obtain ⟨e, he, hsrc, _, _, hdst, _, _⟩ := mem_pandasTS_succ hr
   have := hrank e he
   have h1 := rank_le e.dst
   simp only [pandasTS]
